@@ -5,12 +5,15 @@ P = dict(
     level='exploration',
     technique='runtime monitoring: generated programs of scripted tests run through a private registry with the real MemoryLeakWarningPlugin on the global detector and the real overloaded operators; '
               'the same programs with the plugin constructed on a detector of its own (scripts allocate through that detector), and with two leak plugins in one registry (one per detector, operations addressed to either, a marker plugin between them attributes each leak failure); '
+              'bystander plugins as a dimension of the programs: 1..3 plugins that do nothing but count their own invocations, installed anywhere in the chain (before / after / between the leak plugins, head or tail), each enabled or disabled via TestPlugin::disable - the leak plugin stays installed and enabled, so every demand is unchanged; '
               'independent ledger oracle (per test and plugin: blocks of its detector allocated in the test and still outstanding, declared expectation, ignore flag, failures the test already has) decides verdict, report content and blame; ASan/UBSan build',
     rule='cases: whole programs of 1..12 (thorough ..40) tests, each with setup/body/teardown scripts over {alloc(12 operator/malloc kinds) into a slot table shared by all tests, free(slot) incl. blocks of earlier tests, '
          'realloc, realloc with a failing platform realloc, failing checks of 5 kinds, a failure recorded by another plugin in its pre/post action, EXPECT_N_LEAKS(n), IGNORE_ALL_LEAKS_IN_TEST, passing check, temporary block}, 1..3 repetitions of the registry, both overload sets; '
          'in 30 % of the random programs a plugin at the head of the chain allocates / releases blocks BETWEEN the tests (before the leak plugin opens, after it has closed its window; also releasing what the test just leaked); '
          'verdict_matrix enumerates completely (#leaked 0..3 x leak phase x expectation unset/0..4 x ignore x own failure none/setup/body/teardown/C-style x released earlier blocks 0..2 x 4 allocation kinds x plugin on the global detector / on its own detector) around a leaking predecessor and clean successors; '
          'own_detector_programs / two_leak_plugins_programs draw from the same program space with detector configuration 1 (plugin with its own detector) and 2 (two leak plugins, either chain order); '
+         'in 30 % of the random programs (all four random sections) 1..3 bystander plugins sit at one of 6 chain positions each (installed first / just before the (inner) leak plugin / just after it / just before the outer leak plugin / after the leak plugins / installed last = head), 55 % of them disabled; '
+         'bystander_plugins_matrix enumerates completely (4 detector/leak-plugin configurations x bystander A at 6 positions x enabled/disabled x bystander B absent or at 6 positions x enabled/disabled x #leaked 0..2 x declaration unset/1 x own failure x code between tests) around a leaking predecessor whose block the subject releases, a clean successor and a sweeper; '
          'two_leak_plugins_matrix enumerates completely (#leaked on each detector 0..2 x declaration to each plugin unset/0..2 x ignore to each x own failure x chain order x released predecessor block none/global/own/both). '
          'Non-trivial = program in which some test releases a block of an earlier test while leaving a block of its own outstanding, or executes EXPECT_N_LEAKS(n>0); distinct by program content (hash of all scripts)',
     floor=dict(quick=25000, thorough=350000),
@@ -23,7 +26,10 @@ P = dict(
                    two_plugins_tests_leaking_on_both_detectors=12000, two_plugins_outer_global_verdict_suppressed_by_inner_leak_failure=4000,
                    two_plugins_outer_own_detector_verdict_suppressed_by_inner_leak_failure=4000, two_plugins_outer_leak_verdict_after_silent_inner=4000,
                    blocks_allocated_between_tests=20000, verdict_pass_while_blocks_allocated_between_tests_live=6000, leak_reports_while_blocks_allocated_between_tests_live=15000,
-                   tests_whose_leak_is_released_before_the_next_test_starts=1500),
+                   tests_whose_leak_is_released_before_the_next_test_starts=1500,
+                   programs_with_disabled_bystander_plugin=15000, programs_repeated_with_disabled_bystander_plugin=1200, leak_failures_delivered_through_disabled_plugin=25000,
+                   bystander_disabled_ahead_of_leak_plugin_verdict_leak_more=20000, bystander_disabled_ahead_of_leak_plugin_verdict_leak_fewer=4000, bystander_disabled_ahead_of_leak_plugin_verdict_pass=20000,
+                   bystander_disabled_ahead_leak_report_while_earlier_blocks_live=10000, bystander_enabled_ahead_of_leak_plugin_verdict_leak_more=18000, bystander_disabled_behind_leak_plugin_verdict_leak_more=10000),
         thorough=dict(tests_releasing_earlier_and_leaking_own=700000, tests_release_exactly_offsets_leak=200000, verdict_leak_fewer_than_expected=150000, verdict_failed_test_with_outstanding_blocks=200000,
                       verdict_ignore_with_outstanding_blocks=40000, verdict_pass_expected_count_met=100000, report_entries_checked=3000000, final_reports_with_leaks=200000, reports_truncated=4000,
                       tests_failed_by_other_plugin_with_outstanding_blocks=30000, realloc_failures_injected=100000, programs_threadsafe_overloads=30000, programs_repeated=30000,
@@ -32,7 +38,10 @@ P = dict(
                       two_plugins_tests_leaking_on_both_detectors=100000, two_plugins_outer_global_verdict_suppressed_by_inner_leak_failure=30000,
                       two_plugins_outer_own_detector_verdict_suppressed_by_inner_leak_failure=30000, two_plugins_outer_leak_verdict_after_silent_inner=30000,
                       blocks_allocated_between_tests=250000, verdict_pass_while_blocks_allocated_between_tests_live=80000, leak_reports_while_blocks_allocated_between_tests_live=200000,
-                      tests_whose_leak_is_released_before_the_next_test_starts=20000)),
+                      tests_whose_leak_is_released_before_the_next_test_starts=20000,
+                      programs_with_disabled_bystander_plugin=130000, programs_repeated_with_disabled_bystander_plugin=20000, leak_failures_delivered_through_disabled_plugin=600000,
+                      bystander_disabled_ahead_of_leak_plugin_verdict_leak_more=450000, bystander_disabled_ahead_of_leak_plugin_verdict_leak_fewer=130000, bystander_disabled_ahead_of_leak_plugin_verdict_pass=250000,
+                      bystander_disabled_ahead_leak_report_while_earlier_blocks_live=400000, bystander_enabled_ahead_of_leak_plugin_verdict_leak_more=400000, bystander_disabled_behind_leak_plugin_verdict_leak_more=250000)),
     assumptions=['realloc counts as release of the old block plus allocation of a new one inside the test that calls it (new allocation number), as in ISO C',
                  'a block whose platform realloc failed is still the same outstanding block of the test that allocated it',
                  'reports beyond the capacity of the detector\'s fixed text buffer may be cut off ("Too many memory leaks"): then the listed blocks must be a subset and the footer total exact',
@@ -42,5 +51,7 @@ P = dict(
                  'a plugin constructed with its own detector (second constructor argument) is "the leak plugin installed" for the blocks tracked by that detector: the property is demanded per plugin on the blocks of its detector (key suffix :plugin-with-own-detector)',
                  'with two leak plugins in one registry, a leak failure added by the plugin whose post action runs first counts as "the test already failed" for the other (this is what failureCount_ implements and what the last clause of the property says)',
                  'verdict_* counters are per plugin verdict: a test under two leak plugins contributes two',
-                 'a block allocated between two tests (outside every leak-plugin window) belongs to no test and must not appear in any per-test verdict or report; a block a test leaked stays that test\'s leak when it is released after the test has ended'],
+                 'a block allocated between two tests (outside every leak-plugin window) belongs to no test and must not appear in any per-test verdict or report; a block a test leaked stays that test\'s leak when it is released after the test has ended',
+                 '"with the leak plugin installed" holds whenever the leak plugin is in the registry\'s chain and enabled, whatever other plugins (enabled or disabled) are installed before or after it: bystander plugins change no demand (a missing verdict of a leak plugin that sits behind a disabled plugin gets the key suffix :leak-plugin-behind-a-disabled-plugin)',
+                 'whether a disabled bystander receives actions, and whether an enabled one receives all of them, is C17\'s property: counted (bystander_actions_received_while_disabled, bystander_enabled_action_count_differs_from_tests_run), never flagged here; a DISABLED leak plugin is outside the quantifier and not generated'],
 )
